@@ -30,6 +30,24 @@ class Top:
         return f"TOP({self.why})"
 
 
+class Raises(Top):
+    """the expression raises for a VALID input (the witness), although the property requires a value: a definite defect, unlike
+    Top (which only says that the value is not followed)"""
+
+    def __init__(self, why: str, witness: str):
+        super().__init__(why)
+        self.witness = witness
+
+    def __repr__(self):
+        return f"RAISES({self.why}; e.g. {self.witness!r})"
+
+
+@dataclass(frozen=True)
+class StructV:
+    """struct.Struct(fmt) with one unsigned big-endian field"""
+    size: int
+
+
 @dataclass(frozen=True)
 class IntV:
     lo: int
@@ -89,6 +107,20 @@ class TextV:
     len_hi: Optional[int] = None
     digits_only: Optional[bool] = None  # text.isdigit() known true / false
     as_bytes: bool = False              # bytes.fromhex(text): the same digits, two per byte
+    zfill: int = 0                      # the value is text.zfill(zfill): at least that many characters, the numeral unchanged
+
+
+def witness_with_length(t: "TextV", want) -> Optional[str]:
+    """a valid numeral allowed by `t` whose length AFTER the zero-fill satisfies `want(length)`"""
+    hi = t.len_hi if t.len_hi is not None else max(t.len_lo, t.zfill) + 6
+    for n in range(t.len_lo, hi + 1):
+        if (t.parity == "even" and n % 2) or (t.parity == "odd" and n % 2 == 0):
+            continue
+        if want(max(n, t.zfill)):
+            w = text_witness(replace(t, len_lo=n, len_hi=n, zfill=0))
+            if w is not None:
+                return w
+    return None
 
 
 def text_witness(t: "TextV") -> Optional[str]:
@@ -263,6 +295,8 @@ def str_method(s, meth: str, args: List[object]):
             return replace(s, pad=max(s.pad, w), padchar=ch).note(f".rjust({w},{ch!r})")
         return Top(f"str method .{meth} not modelled")
     if isinstance(s, TextV):
+        if meth == "zfill" and len(args) == 1 and isinstance(args[0], IntV) and args[0].lo == args[0].hi and not s.as_bytes:
+            return replace(s, zfill=max(s.zfill, args[0].lo), history=s.history + (f".zfill({args[0].lo})",))
         if meth in ("lower", "upper"):
             return replace(s, case_folded=meth, history=s.history + (f".{meth}()",))
         if meth in ("strip", "rstrip", "lstrip") and not args:
@@ -278,6 +312,19 @@ def str_method(s, meth: str, args: List[object]):
             return Top("removeprefix of digits on input text")
         return Top(f"str method .{meth} on input text not modelled")
     return Top(f"method .{meth} on non-string")
+
+
+def _struct_size(fmt: str) -> Optional[int]:
+    """byte size of a single unsigned big-endian field ('>Q', '!Q', '>I', '>H', '>B'); None for anything else"""
+    if len(fmt) == 2 and fmt[0] in ">!" and fmt[1] in "QIHB":
+        return {"Q": 8, "I": 4, "H": 2, "B": 1}[fmt[1]]
+    return None
+
+
+@dataclass(frozen=True)
+class TupleResult:
+    """a 1-tuple (what struct.unpack returns): `(v,) = ...` / `...[0]` gives the element"""
+    item: object
 
 
 class Evaluator:
@@ -319,6 +366,10 @@ class Evaluator:
             return self.call(n)
         if isinstance(n, ast.Subscript):
             base = self.eval(n.value)
+            if isinstance(base, Raises):
+                return base
+            if isinstance(base, TupleResult) and isinstance(n.slice, ast.Constant) and n.slice.value == 0:
+                return base.item
             if isinstance(base, StrV) and isinstance(n.slice, ast.Slice):
                 sl = n.slice
                 if sl.step is not None:
@@ -550,11 +601,40 @@ class Evaluator:
                     return a if a.lo >= 0 else IntV(0, max(abs(a.lo), abs(a.hi)))
                 return args[0]
             return Top(f"call of {name} not modelled")
+        if isinstance(f, ast.Attribute) and f.attr in ("unpack", "unpack_from") and not n.keywords:
+            fmt_size = None
+            data = None
+            if isinstance(f.value, ast.Name) and f.value.id == "struct" and "struct" not in self.env and len(n.args) == 2:
+                fm = self.eval(n.args[0])
+                fmt_size = _struct_size(fm.s) if isinstance(fm, ConstStr) else None
+                data = self.eval(n.args[1])
+            elif len(n.args) == 1:
+                sv = self.eval(f.value)
+                if isinstance(sv, StructV):
+                    fmt_size = sv.size
+                    data = self.eval(n.args[0])
+            if fmt_size is not None:
+                if isinstance(data, Raises):
+                    return data
+                if isinstance(data, TextV) and data.as_bytes and f.attr == "unpack":
+                    wrong = witness_with_length(data, lambda n_: n_ != 2 * fmt_size)
+                    if wrong is not None:
+                        return Raises(f"struct.unpack needs exactly {fmt_size} bytes and raises struct.error otherwise", wrong)
+                    return TupleResult(ParsedV(16, replace(data, as_bytes=False), None, (f"struct.unpack of {fmt_size} bytes",)))
+                return Top("struct.unpack of an unmodelled value")
+        if isinstance(f, ast.Attribute) and isinstance(f.value, ast.Name) and f.value.id == "struct" and f.attr == "Struct" and len(n.args) == 1 \
+                and "struct" not in self.env:
+            fm = self.eval(n.args[0])
+            sz = _struct_size(fm.s) if isinstance(fm, ConstStr) else None
+            return StructV(sz) if sz is not None else Top("struct format not modelled")
         if isinstance(f, ast.Attribute) and isinstance(f.value, ast.Name) and f.value.id == "bytes" and f.attr == "fromhex" and len(n.args) == 1:
             t = self.eval(n.args[0])
+            if isinstance(t, Raises):
+                return t
             if isinstance(t, TextV) and not t.prefix and not t.may_be_empty and not t.as_bytes:
-                if t.parity != "even":
-                    return Top("bytes.fromhex of a text whose length may be odd (ValueError)")
+                odd = witness_with_length(t, lambda n_: n_ % 2 == 1)
+                if odd is not None:
+                    return Raises("bytes.fromhex raises ValueError for a text with an odd number of digits", odd)
                 return replace(t, as_bytes=True, history=t.history + ("bytes.fromhex()",))
             return Top("bytes.fromhex of an unmodelled value")
         if isinstance(f, ast.Attribute) and isinstance(f.value, ast.Name) and f.value.id == "int" and f.attr == "from_bytes" and 1 <= len(n.args) <= 2:
@@ -563,6 +643,8 @@ class Evaluator:
             for k in n.keywords:
                 if k.arg == "byteorder":
                     order = self.eval(k.value)
+            if isinstance(b, Raises):
+                return b
             if isinstance(b, TextV) and b.as_bytes and isinstance(order, ConstStr) and order.s == "big":
                 return ParsedV(16, replace(b, as_bytes=False), None, ("int.from_bytes(bytes.fromhex(text), 'big')",))
             return Top("int.from_bytes of an unmodelled value")
